@@ -53,11 +53,16 @@ MS = 1000000
 HEADER_NAMES = ["stage", "x-user", "env", "kitexRetryErrorRate", "kitexRetryMethods", ""]
 REGEXES = ["^a.*z$", "v[0-9]+", "(", "[a-", "", ".*", "^$", "a|b", "\\d+", "canary"]
 VALUES = ["canary", "v1", "v12", "abz", "", "prod", "0.1", "0.25", "abc", "GET,PUT", "Echo"]
-CLUSTERS = ["outbound|80||a.default.svc.cluster.local", "c1", "c2", "c3", ""]
-RC_NAMES = ["80", "8888", "rc-a", "rc-b", ""]
-LIS_NAMES = ["10.0.0.1_80", "10.0.0.2_8888", "virtualInbound", "l1", ""]
-CL_NAMES = ["c1", "c2", "outbound|80||a.default.svc.cluster.local", "cluster-x", ""]
+CLUSTERS = ["outbound|80||a.default.svc.cluster.local", "c1", "c2", "c3", "", "c1.", "C1", " c1"]
+RC_NAMES = ["80", "8888", "rc-a", "rc-b", "rc-a.", "RC-A", ""]
+LIS_NAMES = ["10.0.0.1_80", "10.0.0.2_8888", "virtualInbound", "l1", "L1", "l1.", ""]
+CL_NAMES = ["c1", "c2", "outbound|80||a.default.svc.cluster.local", "cluster-x", "c1.", "C1", " c1", ""]
 METHODS = ["Echo", "Ping", ""]
+
+
+# payloads of foreign (unknown type url) Any values, hex: valid encodings of other messages that are NOT valid encodings of the
+# messages the decoders know, so that a decoder which parses them under the wrong type fails
+FOREIGN_PAYLOADS = ["", "1a03616263", "0a03616263", "0801", "12020801", "2a0568656c6c6f", "ffffffff", "0a0a0a0a", "7a0161", "0d01020304"]
 
 
 class Gen:
@@ -199,7 +204,7 @@ class Gen:
         if k < 0.5 + self.bad * 0.15:
             return C("HFTypedStructBad")
         if k < 0.85:
-            return C("HFUnknownUrl")
+            return C("HFUnknownUrl") if r.random() < 0.5 else C("HFUnknownUrl", r.choice(FOREIGN_PAYLOADS))
         return C("HFNotTyped") if r.random() < 0.5 else C("HFNotTyped", "discovery")
 
     def hcm(self):
@@ -228,7 +233,7 @@ class Gen:
         if k < 0.75 + self.bad * 0.1:
             return C("NFHcmBad")
         if k < 0.9:
-            return C("NFUnknownUrl")
+            return C("NFUnknownUrl") if r.random() < 0.5 else C("NFUnknownUrl", r.choice(FOREIGN_PAYLOADS))
         return C("NFNotTyped") if r.random() < 0.5 else C("NFNotTyped", "discovery")
 
     def chain(self):
@@ -281,7 +286,8 @@ class Gen:
 
     def nametable(self):
         r = self.r
-        hosts = ["a.default.svc.cluster.local", "b.default.svc.cluster.local", "www.example.com", "kitex-server.default.svc.cluster.local", ""]
+        hosts = ["a.default.svc.cluster.local", "b.default.svc.cluster.local", "www.example.com", "kitex-server.default.svc.cluster.local", "",
+                 "a.default.svc.cluster.local.", "A.Default.svc.cluster.local", " a.default.svc.cluster.local", "*.wildcard.example.com", "a"]
         kvs, seen = [], set()
         for _ in range(r.choice([0, 1, 2, 3, 5])):
             h = r.choice(hosts)
@@ -295,7 +301,7 @@ class Gen:
         f = {"lds": self.listener, "rds": self.rc, "cds": self.cluster, "eds": self.cla, "nds": self.nametable}[kind]
         k = self.r.random()
         if k < self.bad * 0.25:
-            return C("RWrongUrl")
+            return C("RWrongUrl") if self.r.random() < 0.5 else C("RWrongUrl", self.r.choice(FOREIGN_PAYLOADS))
         if k < self.bad * 0.5:
             return C("RUnparsable")
         return C("RGood", f())
